@@ -74,12 +74,16 @@ def run_world(impl, config, actions):
 
 def cutoff(ex, s):
     """First moment a silence-caused end is possible for this session."""
-    base = [getattr(s, 't_open', 0)] + list(s.pongs)
-    # fresh while now <= last answer + I + T; be conservative with the latest answer
-    t = getattr(s, 't_open', 0) + ex.I + ex.T
-    for p in sorted(s.pongs):
-        if p < t:            # a PONG at the very deadline may already be too late in one world
-            t = max(t, p + ex.I + ex.T)
+    # every PONG (and the OPEN) starts a PING timer; the earliest PING that no PONG answers
+    # strictly inside its window decides (a PONG at the very deadline may already be too late in
+    # one world; an unsolicited PONG starts a timer of its own without cancelling the others)
+    pongs = sorted(s.pongs)
+    due = []
+    for c in [getattr(s, 't_open', 0)] + pongs:
+        lo, hi = c + ex.I, c + ex.I + ex.T
+        if not any(lo <= p < hi for p in pongs):
+            due.append(hi)
+    t = min(due) if due else getattr(s, 't_open', 0) + ex.I + ex.T
     # a read that has been waiting for I+T may time out (and end the session) at that moment;
     # with overlapping reads which of them is served first is unspecified
     for r in ex.world.reqs:
